@@ -15,12 +15,18 @@ use serde_json::json;
 pub enum Rel {
     /// time reflection, optional affine event a.y + bt*t - c
     Reflect { ev: Option<(Vec<f64>, f64, f64)> },
+    /// time reflection with two-phase event recipes (several functions, terminal ones, several in one step)
+    ReflectEvents { recipes: Vec<crate::evgen::EvRecipe> },
     /// state and atol scaled by 2^k (linear homogeneous problem)
     Scale { k: i32 },
     /// scalar tolerance written as a constant vector
     TolVec,
     /// m independent identical copies (first_step given)
     Copies { m: usize },
+    /// copies of a stiff relaxation problem started on its slow manifold with a generated (often far too
+    /// large) first step, Radau or BDF with the analytic Jacobian: whether the first trial step is accepted
+    /// must not depend on the number of copies
+    CopiesStiff { lam_exp: Vec<f64>, m: usize, fs_exp: f64 },
 }
 
 #[derive(Serialize, Deserialize, Clone, Debug)]
@@ -57,13 +63,13 @@ impl<'a> Rhs for Reflect<'a> {
     }
 }
 
-struct Copies<'a>(&'a Prob, usize);
+struct Copies<'a>(&'a dyn Rhs, usize);
 impl<'a> Rhs for Copies<'a> {
     fn dim(&self) -> usize {
-        self.0.n * self.1
+        self.0.dim() * self.1
     }
     fn f(&self, t: f64, y: &[f64], dy: &mut [f64]) {
-        let n = self.0.n;
+        let n = self.0.dim();
         for q in 0..self.1 {
             self.0.f(t, &y[q * n..(q + 1) * n], &mut dy[q * n..(q + 1) * n]);
         }
@@ -72,7 +78,7 @@ impl<'a> Rhs for Copies<'a> {
         true
     }
     fn jac_dense(&self, t: f64, y: &[f64], j: &mut [f64]) {
-        let n = self.0.n;
+        let n = self.0.dim();
         let nn = n * self.1;
         for v in j.iter_mut() {
             *v = 0.0;
@@ -85,6 +91,33 @@ impl<'a> Rhs for Copies<'a> {
                     j[(q * n + r) * nn + q * n + c] = blk[r * n + c];
                 }
             }
+        }
+    }
+}
+
+/// stiff relaxation onto y = cos t, which is also an exact solution: y_i' = -lam_i (y_i - cos t) - sin t
+struct Relax {
+    lams: Vec<f64>,
+}
+impl Rhs for Relax {
+    fn dim(&self) -> usize {
+        self.lams.len()
+    }
+    fn f(&self, t: f64, y: &[f64], dy: &mut [f64]) {
+        for (i, l) in self.lams.iter().enumerate() {
+            dy[i] = -l * (y[i] - t.cos()) - t.sin();
+        }
+    }
+    fn has_jac(&self) -> bool {
+        true
+    }
+    fn jac_dense(&self, _t: f64, _y: &[f64], j: &mut [f64]) {
+        let n = self.lams.len();
+        for v in j.iter_mut() {
+            *v = 0.0;
+        }
+        for (i, l) in self.lams.iter().enumerate() {
+            j[i * n + i] = -l;
         }
     }
 }
@@ -154,6 +187,58 @@ pub fn check(c: &Case) -> Outcome {
             }
             Outcome::pass(format!("{}:reflect", name), nontriv(&a), json!({"naccpt": a.naccpt, "nrejct": a.nrejct, "events": a.t_events.iter().map(|v| v.len()).sum::<usize>()}))
         }
+        Rel::ReflectEvents { recipes } => {
+            // phase 1: plain dense run gives the step grid on which the roots are placed
+            let plain = {
+                let mut instr = Instr::new(&prob, &none);
+                instr.dir = sp.dir();
+                instr.use_jac = c.analytic_jac;
+                let o = RunOpts { method: c.method, rtol: Tol::S(c.rtol), atol: Tol::S(c.atol), first_step: fs_rk4, max_step: None, max_steps: None, t_eval: None, dense: true };
+                match solve(&instr, sp.x0, sp.xend, &y0, &o) {
+                    RunResult::Ok(s) if s.status == Status::Success => s,
+                    other => return Outcome::triv(format!("plain-run:{}", other.describe().chars().take(30).collect::<String>())),
+                }
+            };
+            let f = |t: f64| plain.sol(t).ok();
+            let evs: Vec<EvSpec> = crate::evgen::resolve_recipes(recipes, &plain.t, sp, &f).into_iter().map(|(e, _)| e).collect();
+            let evs_r: Vec<EvSpec> = evs.iter().map(|e| EvSpec { g: Ev::Mirror { g: Box::new(e.g.clone()) }, dir: e.dir, terminal: e.terminal }).collect();
+            let a = match run_one(&prob, &evs, c, sp.x0, sp.xend, &y0, Tol::S(c.rtol), Tol::S(c.atol), fs_rk4) {
+                Ok(s) => s,
+                Err(e) => return Outcome::triv(format!("base-run:{}", e.chars().take(30).collect::<String>())),
+            };
+            let r = Reflect(&prob);
+            let b = match run_one(&r, &evs_r, c, -sp.x0, -sp.xend, &y0, Tol::S(c.rtol), Tol::S(c.atol), fs_rk4.map(|h| -h)) {
+                Ok(s) => s,
+                Err(e) => return Outcome::viol(format!("{}: the problem with events solves but its time reflection gives {}", name, e)),
+            };
+            for (k, (ta, tb)) in a.t_events.iter().zip(&b.t_events).enumerate() {
+                if ta.len() != tb.len() {
+                    return Outcome::viol(format!("{}: event function {} ({:?}, terminal {:?}) is seen {} times going one way ({:?}) but {} times in the reflected problem ({:?}); status {} / {}", name, k, evs[k].g, evs[k].terminal, ta.len(), ta, tb.len(), tb, status_name(a.status), status_name(b.status)));
+                }
+                for (x, y) in ta.iter().zip(tb) {
+                    if (x + y).abs() > 1e-11 + 8.0 * f64::EPSILON * x.abs() {
+                        return Outcome::viol(format!("{}: event times of function {} do not mirror: {:e} vs {:e}", name, k, x, y));
+                    }
+                }
+            }
+            if a.status != b.status {
+                return Outcome::viol(format!("{}: time reflection changes the status: {} vs {}", name, status_name(a.status), status_name(b.status)));
+            }
+            if a.t.len() != b.t.len() {
+                return Outcome::viol(format!("{}: time reflection changes the number of samples: {} vs {}", name, a.t.len(), b.t.len()));
+            }
+            // all samples but a final terminal-event point are step ends: exact mirror images
+            let m = if a.status == Status::UserInterrupt { a.t.len() - 1 } else { a.t.len() };
+            let tneg: Vec<f64> = b.t.iter().map(|t| -t).collect();
+            if !bits_eq(&a.t[..m], &tneg[..m]) || !bits_eq2(&a.y[..m], &b.y[..m]) {
+                return Outcome::viol(format!("{}: with events, the reflected problem's accepted steps are not the mirror image ({} samples)", name, m));
+            }
+            if m < a.t.len() && (a.t[m] + b.t[m]).abs() > 1e-11 + 8.0 * f64::EPSILON * a.t[m].abs() {
+                return Outcome::viol(format!("{}: the terminal event point does not mirror: {:e} vs {:e}", name, a.t[m], b.t[m]));
+            }
+            let nev: usize = a.t_events.iter().map(|v| v.len()).sum();
+            Outcome::pass(format!("{}:reflect-events", name), nev >= 1, json!({"naccpt": a.naccpt, "events": nev, "terminal_stop": (a.status == Status::UserInterrupt) as u8}))
+        }
         Rel::Scale { k } => {
             let sc = 2f64.powi(*k);
             let a = match run_one(&prob, &none, c, sp.x0, sp.xend, &y0, Tol::S(c.rtol), Tol::S(c.atol), fs_rk4) {
@@ -206,6 +291,59 @@ pub fn check(c: &Case) -> Outcome {
                 }
             }
             Outcome::pass(format!("{}:tolvec", name), nontriv(&a) && n >= 2, json!({"naccpt": a.naccpt, "nrejct": a.nrejct, "n": n}))
+        }
+        Rel::CopiesStiff { lam_exp, m, fs_exp } => {
+            let meth = if c.method == Meth::BDF { Meth::BDF } else { Meth::RADAU };
+            let rl = Relax { lams: lam_exp.iter().map(|e| 10f64.powf(*e)).collect() };
+            let nn = rl.dim();
+            let h0 = 10f64.powf(*fs_exp);
+            let (x0, xend) = (0.0, (4.0 * h0).max(2.0));
+            let y1 = vec![1.0; nn];
+            let mut cc = c.clone();
+            cc.method = meth;
+            cc.analytic_jac = true;
+            // the end of the first accepted step, seen through the events hook (the reported t[1] is always
+            // x0 + first_step: the output handler interpolates to it)
+            let counter = vec![EvSpec { g: Ev::Const { v: 1.0 }, dir: 0, terminal: None }];
+            let run = |rhs: &dyn Rhs, y0: &[f64]| -> Result<(Solution, f64), String> {
+                let mut instr = Instr::new(rhs, &counter);
+                instr.use_jac = true;
+                instr.rec_ev = true;
+                let o = RunOpts { method: meth, rtol: Tol::S(c.rtol), atol: Tol::S(c.atol), first_step: Some(h0), max_step: None, max_steps: None, t_eval: None, dense: false };
+                match solve(&instr, x0, xend, y0, &o) {
+                    RunResult::Ok(s) => {
+                        let log = instr.take_log();
+                        let idx = step_end_calls(&log.ev_t, 1.0);
+                        if idx.len() < 2 {
+                            return Err("no-step".into());
+                        }
+                        Ok((s, log.ev_t[idx[1]]))
+                    }
+                    other => Err(other.describe()),
+                }
+            };
+            let _ = &cc;
+            let (a, ea) = match run(&rl, &y1) {
+                Ok(r) => r,
+                Err(e) => return Outcome::triv(format!("base-run:{}", e.chars().take(30).collect::<String>())),
+            };
+            let cp = Copies(&rl, *m);
+            let ym = vec![1.0; nn * m];
+            let (_b, eb) = match run(&cp, &ym) {
+                Ok(r) => r,
+                Err(e) => return Outcome::viol(format!("{}: the stiff system solves but {} copies of it give {}", meth.name(), m, e)),
+            };
+            let acc = |e: f64| (e - (x0 + h0)).abs() <= 8.0 * ulp(h0);
+            let first_accepted = |_s: &Solution| acc(ea);
+            let b = _b;
+            let fb = acc(eb);
+            if acc(ea) != fb {
+                return Outcome::viol(format!(
+                    "{}: stiff relaxation (rates {:?}, rtol {:e}) with first_step {:e}: the first trial step is {} for the single system but {} for {} identical copies (first step ends {:e} vs {:e})",
+                    meth.name(), rl.lams, c.rtol, h0, if acc(ea) { "accepted" } else { "rejected" }, if fb { "accepted" } else { "rejected" }, m, ea, eb
+                ));
+            }
+            Outcome::pass(format!("{}:copies-stiff:{}", meth.name(), if first_accepted(&a) { "first-accepted" } else { "first-rejected" }), true, json!({"m": m, "naccpt": a.naccpt, "nrejct": a.nrejct}))
         }
         Rel::Copies { m } => {
             let fs = if c.method == Meth::RK4 { fs_rk4 } else { Some(c.first_step.clamp(1e-4, 0.2) * sp.len()) };
@@ -284,9 +422,11 @@ pub fn strategy() -> BoxedStrategy<Case> {
     let ev = proptest::option::weighted(0.5, (proptest::collection::vec(fr(-1.0, 1.0), 6..=6), fr(-1.0, 1.0), fr(-1.0, 1.0)));
     prop_oneof![
         3 => (prob_spec(6, 0.5, 8.0), common(), ev.prop_map(|ev| Rel::Reflect { ev })).prop_map(mk),
+        2 => (prob_spec(4, 0.5, 8.0).prop_flat_map(|p| { let n: usize = p.blocks.iter().map(|b| b.dim()).sum(); (Just(p), crate::evgen::recipes(n, 4, 0.4)) }), common()).prop_map(|((p, r), cm)| (p, cm, Rel::ReflectEvents { recipes: r })).prop_map(mk),
         3 => (linear_spec(6, false, 0.5, 8.0), common(), (-60i32..=60).prop_map(|k| Rel::Scale { k })).prop_map(mk),
         2 => (prob_spec(6, 0.5, 8.0), common(), Just(Rel::TolVec)).prop_map(mk),
         2 => (prob_spec(3, 0.5, 6.0), common(), (2usize..=16).prop_map(|m| Rel::Copies { m })).prop_map(mk),
+        1 => (prob_spec(1, 0.5, 6.0), common(), (proptest::collection::vec(fr(1.5, 6.0), 1..=3), prop_oneof![Just(2usize), Just(3), Just(16)], fr(-3.0, 0.0)).prop_map(|(lam_exp, m, fs_exp)| Rel::CopiesStiff { lam_exp, m, fs_exp })).prop_map(mk),
     ]
     .boxed()
 }
